@@ -379,7 +379,7 @@ Section Whole.
     unfold prog_obj.
     destruct (o_fault o); [| repeat constructor | |];
       (constructor; [exact Ht|]; apply Hw;
-       destruct (o_dec o) as [[m|]|]; [| | destruct (o_optional o)]; repeat constructor; simpl; auto).
+       destruct (o_dec o) as [[m|]| |]; [| | destruct (o_optional o) |]; repeat constructor; simpl; auto).
   Qed.
 
   Lemma prog_xok l : Forall xaction_ok (prog l).
@@ -409,7 +409,7 @@ Section Whole.
            as (f2 & Hrun & Hdir & Hnx & Hby);
       [reflexivity | reflexivity | unfold bytes_of; rewrite Hig; reflexivity |].
     all: rewrite Hrun; simpl in Hby.
-    all: destruct (o_dec o) as [[m|]|] eqn:Edec; [| | destruct (o_optional o)].
+    all: destruct (o_dec o) as [[m|]| |] eqn:Edec; [| | destruct (o_optional o) |].
     all: simpl Safe; repeat split; simpl; trivial.
     all: try (right; intros j Hj; rewrite (lookup_dir f2 f1) in Hj by assumption;
               rewrite Hlt in Hj; inversion Hj; subst j;
@@ -463,7 +463,7 @@ Section Whole.
          [ rewrite unlink_lookup_same; symmetry; exact Hnone
          | rewrite unlink_lookup_other by assumption; rewrite Hl2; apply Hlo; assumption ]).
     all: destruct Hren as (f3 & Hren & Hl3).
-    all: destruct (o_dec o) as [[m|]|] eqn:Edec; [| | destruct (o_optional o)].
+    all: destruct (o_dec o) as [[m|]| |] eqn:Edec; [| | destruct (o_optional o) |].
     all: cbn [seq_run fold_left astep act fst snd l_dead l_fd close kill].
     all: try rewrite Hren.
     all: cbn [seq_run fold_left astep act fst snd l_dead l_fd close kill].
@@ -532,7 +532,7 @@ Proof.
   unfold prog_obj.
   destruct (o_fault o); (intros [H|H]; [discriminate|]); try (destruct H; fail);
     apply in_writes_rename in H;
-    destruct (o_dec o) as [[m|]|]; try destruct (o_optional o); simpl in H;
+    destruct (o_dec o) as [[m|]| |]; try destruct (o_optional o); simpl in H;
     repeat (destruct H as [H|H]; [inversion H; subst; try reflexivity; try discriminate|]); try destruct H.
 Qed.
 
@@ -554,7 +554,7 @@ Proof.
   unfold s' in *. clear s'. unfold o_ok in Hok. unfold prog_obj in *.
   destruct (o_fault o) eqn:Efl;
     try (rewrite seq_run_cons in Halive; unfold astep, act in Halive; rewrite Hd in Halive; simpl in Halive; discriminate).
-  all: destruct (o_dec o) as [mode|] eqn:Edec; [|discriminate].
+  all: destruct (o_dec o) as [mode| |] eqn:Edec; [|discriminate|discriminate].
   all: rewrite seq_run_cons in *; destruct s as [f l]; simpl in Hd.
   all: unfold astep at 1 in Halive; unfold astep at 1; unfold act in *; simpl fst in *; simpl snd in *; rewrite Hd in *.
   all: unfold create_tmp in *; destruct (create_excl (o_tmp o) tmp_mode f) as [[f1 i]|] eqn:E;
@@ -1067,7 +1067,7 @@ Proof.
   all: destruct (create_excl (o_tmp o) tmp_mode f) as [[f1 i]|] eqn:E; cbn [snd fst l_dead kill];
     [ constructor; [exact Ht|] | apply Forall_forall; intros e He; rewrite trace_dead in He by reflexivity; destruct He ].
   all: apply trace_writes; [intros n; exact Ht|]; intros f'.
-  all: destruct (o_dec o) as [[m|]|]; [| | destruct (o_optional o)].
+  all: destruct (o_dec o) as [[m|]| |]; [| | destruct (o_optional o) |].
   all: simpl trace; cbn [fst snd l_dead]; unfold act; cbn [l_dead];
        try (destruct (rename (o_tmp o) (o_path o) f') as [f3|]; cbn [fst snd l_dead close kill]).
   all: repeat constructor; simpl; auto.
